@@ -618,7 +618,7 @@ class Machine:
                'phase': self.phase, 'n_stdin': len(f['stdin']), 'n_trs': len(f['trs'])}
         self.inv.append(rec)
         out = (sin if c.get('cat') == '1' else '') + bytes.fromhex(c.get('out', '')).decode('utf-8')
-        err = bytes.fromhex(c.get('err', '')).decode('utf-8')
+        err = bytes.fromhex(c.get('err', '')).decode('utf-8', 'surrogateescape')
         rc = int(c.get('rc', '0'))
         if f['kind'] == 'sh' and f['sh']['exit'] is not None:
             rc = f['sh']['exit']
